@@ -75,14 +75,19 @@ ApplyFault(p, x) ==
 -----------------------------------------------------------------------------
 (* C10, one restore path applied to an observed level.  `carried` are the aggregate figures
    the external input claims (possibly lies); the result must not depend on them. *)
-RestoredOk(pre, price2, post2, listing) ==
+\* what C10 states: same price, same orders field for field, same (derived) aggregates
+RestoredSame(pre, price2, post2) ==
   /\ price2 = Price
   /\ post2.qmap = pre.qmap                                   \* same set of orders, field for field
   /\ Mon_C01(post2)                                          \* aggregates derived from the orders
   /\ post2.vis = pre.vis /\ post2.hid = pre.hid /\ post2.cnt = pre.cnt
+\* how the pinned code lays the restored queue out (not part of C10's statement: a deviation is model
+\* drift; it matters for C11, where it decides whether the copy can be expected to trade alike)
+RestoredQueue(pre, post2) ==
   /\ Len(post2.tickets) = Cardinality(Live(pre.qmap))        \* each order queued exactly once
   /\ Range(post2.tickets) = Live(pre.qmap)
   /\ Sorted([k \in DOMAIN post2.tickets |-> post2.qmap[post2.tickets[k]]])   \* queued in listing (timestamp) order
+RestoredOk(pre, price2, post2, listing) == RestoredSame(pre, price2, post2) /\ RestoredQueue(pre, post2)
 
 -----------------------------------------------------------------------------
 (* C11: when is the restored level guaranteed to trade like the original?  When the original's
